@@ -153,6 +153,14 @@ def load_prop(pid: str):
 def shard_main(argv: list[str]) -> int:
     pid, tier, seed, shard, nshards, out = argv[0], argv[1], int(argv[2]), int(argv[3]), int(argv[4]), argv[5]
     t0 = time.time()
+    # private scratch / temp directory per shard (GEKKO litters TMPDIR; shards must not clean each other's files)
+    scr = os.environ.get("FV_SCRATCH")
+    if scr:
+        import tempfile
+        mine = os.path.join(scr, f"s{shard}")
+        os.makedirs(mine, exist_ok=True)
+        os.environ["TMPDIR"] = os.environ["FV_SCRATCH"] = mine
+        tempfile.tempdir = mine
     activate_repo()
     mod = load_prop(pid)
     ctx = Ctx(pid, tier, seed)
@@ -330,6 +338,9 @@ def fold(mod, pid: str, tier: str, seed: int, results: list[dict], wall: float) 
     for c in getattr(mod, "REQUIRED_COUNTERS", []):
         if counters.get(c, 0) == 0:
             inconclusive.append(f"deciding monitor '{c}' never evaluated")
+    for c, least in getattr(mod, "MIN_COUNTERS", {}).get(tier, {}).items():
+        if counters.get(c, 0) < least:
+            inconclusive.append(f"monitor '{c}' evaluated only {counters.get(c, 0)} times (< {least})")
     distinct = len(digests)
     if distinct < 2:
         inconclusive.append("fewer than 2 distinct non-trivial cases")
